@@ -213,6 +213,165 @@ class HeapGen:
         return '; '.join(stmts), snaps
 
 
+class PMap:
+    """a hash map of the simulation: insertion-ordered (key, value) pairs; identity matters"""
+    def __init__(self):
+        self.items = []
+
+    def children(self):
+        for k, v in self.items:
+            yield k
+            yield v
+
+
+def reaches_any(x, target):
+    """can `target` be reached from container `x` through arrays and maps (keys and values)?"""
+    kids = x if isinstance(x, list) else (list(x.children()) if isinstance(x, PMap) else [])
+    for c in kids:
+        if c is target:
+            return True
+        if isinstance(c, (list, PMap)) and reaches_any(c, target):
+            return True
+    return False
+
+
+def is_or_reaches(v, target):
+    return v is target or (isinstance(v, (list, PMap)) and reaches_any(v, target))
+
+
+def render_h(v):
+    """text of the harness' render_value: arrays by content, hash maps as sorted entry lists"""
+    if isinstance(v, PMap):
+        return '#{' + ','.join(sorted(render_h(k) + '=' + render_h(x) for k, x in v.items)) + '}'
+    if isinstance(v, list):
+        return '[' + ','.join(render_h(x) for x in v) + ']'
+    return fmt(v)
+
+
+class CycleGen:
+    """C08: histories over two arrays and two hash maps that try to close a cycle through every
+    inserting operator of either container kind; an insertion that would make a container reach
+    itself must be refused and leave everything as it was."""
+    AV = ['g1', 'g2']
+    MV = ['gx', 'ga']
+
+    def __init__(self, rng):
+        self.r = rng
+        self.stats = {}
+
+    def note(self, k):
+        self.stats[k] = self.stats.get(k, 0) + 1
+
+    def history(self):
+        r = self.r
+        env = {'g1': [], 'g2': [], 'gx': PMap(), 'ga': PMap()}
+        stmts = ['tr = []', 'g1 = []', 'g2 = []', 'gx = createHashMap', 'ga = createHashMap']
+        snaps = []
+        refused = 0
+        for _ in range(3 + r.below(10)):
+            op = r.weighted([('arr_in_map', 5), ('map_in_arr', 5), ('map_in_map', 4), ('arr_in_arr', 3), ('selfmap', 2), ('selfkey', 1),
+                             ('wrapmap', 2), ('alias_arr', 1), ('alias_map', 1), ('get', 2), ('delete', 2), ('num', 2), ('fresh', 1)])
+            self.note(op)
+            a = r.choice(self.AV)
+            b = r.choice(self.AV)
+            h = r.choice(self.MV)
+            g = r.choice(self.MV)
+            key = r.choice(['k', 'j'])
+            A, Bv, H, G = env[a], env[b], env[h], env[g]
+
+            def mapset(M, k, val):
+                for i, (kk, _) in enumerate(M.items):
+                    if kk == k:
+                        M.items[i] = (kk, val)
+                        return
+                M.items.append((k, val))
+
+            if op == 'arr_in_map':
+                if is_or_reaches(A, H):
+                    refused += 1
+                else:
+                    mapset(H, key, A)
+                stmts.append('{ %s set ["%s", %s] } except__ { }' % (h, key, a))
+            elif op == 'map_in_map':
+                if is_or_reaches(G, H):
+                    refused += 1
+                else:
+                    mapset(H, key, G)
+                stmts.append('{ %s set ["%s", %s] } except__ { }' % (h, key, g))
+            elif op == 'map_in_arr':
+                via = r.choice(['pushBack', 'set', 'append'])
+                self.note('map_in_arr:' + via)
+                cyc = is_or_reaches(H, A)
+                if cyc:
+                    refused += 1
+                if via == 'pushBack':
+                    if not cyc:
+                        A.append(H)
+                    stmts.append('{ %s pushBack %s } except__ { }' % (a, h))
+                elif via == 'set':
+                    if len(A) == 0:
+                        A.append(NIL)
+                    if not cyc:
+                        A[0] = H
+                    stmts.append('{ %s set [0, %s] } except__ { }' % (a, h))
+                else:
+                    if not cyc:
+                        A.append(H)
+                    stmts.append('{ %s append [%s] } except__ { }' % (a, h))
+            elif op == 'arr_in_arr':
+                if is_or_reaches(Bv, A):
+                    refused += 1
+                else:
+                    A.append(Bv)
+                stmts.append('{ %s pushBack %s } except__ { }' % (a, b))
+            elif op == 'selfmap':
+                refused += 1
+                stmts.append('{ %s set ["%s", %s] } except__ { }' % (h, key, h))
+            elif op == 'selfkey':
+                refused += 1
+                stmts.append('{ %s set [[%s], 1] } except__ { }' % (h, h))
+            elif op == 'wrapmap':
+                refused += 1
+                stmts.append('{ %s set ["%s", [[%s]]] } except__ { }' % (h, key, h))
+            elif op == 'alias_arr':
+                env[a] = Bv
+                stmts.append('%s = %s' % (a, b))
+            elif op == 'alias_map':
+                env[h] = G
+                stmts.append('%s = %s' % (h, g))
+            elif op == 'get':
+                got = [v for k, v in H.items if k == key]
+                if got and isinstance(got[0], list):
+                    env[a] = got[0]
+                    stmts.append('%s = %s get "%s"' % (a, h, key))
+                elif got and isinstance(got[0], PMap):
+                    env[g] = got[0]
+                    stmts.append('%s = %s get "%s"' % (g, h, key))
+                else:
+                    stmts.append('%s pushBack 7' % a)
+                    A.append(7)
+            elif op == 'delete':
+                H.items = [(k, v) for k, v in H.items if k != key]
+                stmts.append('%s deleteAt "%s"' % (h, key))
+            elif op == 'num':
+                n = r.below(9)
+                mapset(H, key, n)
+                stmts.append('%s set ["%s", %d]' % (h, key, n))
+            else:
+                if r.chance(1, 2):
+                    env[a] = []
+                    stmts.append('%s = []' % a)
+                else:
+                    env[h] = PMap()
+                    stmts.append('%s = createHashMap' % h)
+            snaps.append([len(env['g1']), len(env['g2']), len(env['gx'].items), len(env['ga'].items)])
+            stmts.append('tr pushBack [count g1, count g2, count gx, count ga]')
+        if refused:
+            self.note('histories_with_refusal')
+        final = {v: render_h(env[v]) for v in self.AV + self.MV}
+        return '; '.join(stmts), snaps, final
+
+
 def fmt_snapshot(v):
     return v
 
